@@ -199,6 +199,29 @@ NOT_APPLICABLE = {
            'the code, so no sound static rule decides it.',
 }
 
+# clauses added after the first build (rounds 3-4 of seeded changes), appended to the level text of the property
+ADDED = {
+    'C01': ' REAL values are written with exactly six decimals; the join keys of the loader (shared with C03) are typed by the association role model.',
+    'C02': ' The partner sets keep their linked-list invariant under add / discard / pop (shape analysis, shared with C17); referential attributes '
+           'are read through the declared cell (shared with C10).',
+    'C03': ' A shared referential attribute chains to the property installed before under the same name; all input channels decode text alike; '
+           'the batch connect is mirrored (shared with C02) and reads keys through Class.__getattr__ (shared with C10).',
+    'C04': ' List nodes are built in source order, keyword fields are read case-normalised, navigation and link operations are the tables of C09 / C02 (shared rule groups).',
+    'C05': ' Identifiers are installed and looked up exactly as spelled; every select form writes the cardinality it read; is_global is a truth table over the package hierarchy.',
+    'C06': ' A parameter read is resolved along a navigation from the owning element; no None child reaches a statement list; identifiers are looked up exactly as spelled.',
+    'C07': ' Sibling productions agree on the node class of keyword-qualified invocations and on the kind of symbol each node field receives; a possibly empty statement is never added to a list unguarded.',
+    'C08': ' Keyword fields of child nodes (typed from the grammar actions) are followed as well, and symbol-table lookups are sinks.',
+    'C09': ' WhereEqual is a table over all component outcomes including the empty filter; the result sets keep their linked-list invariant (shape analysis, shared with C17).',
+    'C10': ' __delattr__ is tabled over the declared attributes as well; the index keys of the loader use the association spelling (shared with C03).',
+    'C12': ' Every value lexeme the grammar accepts gets a type name (automata inclusion against guess_type_name); constructs that raise by themselves on malformed data '
+           '(zip(strict=True), unguarded delattr, an element of split()) are not used unguarded on the input routes.',
+    'C13': ' No partial converter (int, float, ...) is applied to token text while parsing; endlexpos is computed from the matched text, not from a re-bound value.',
+    'C15': ' The numbering loop of an enumeration walks the sequence sort_reflexive returns.',
+    'C18': ' Nothing kept by the loader or its statements is a one-shot iterator; a rejected input leaves nothing behind (shared with C12).',
+    'C19': ' MetaModel.new and calling a metaclass forward their arguments to MetaClass.new unchanged; a given generator of any kind is stored.',
+    'C20': ' The builders keep no state between generations (no memoising decorator, mutable default or module-level container); a user type restricts its immediate base; loops over selected elements run to their end.',
+}
+
 ALL = ['C%02d' % i for i in range(1, 21)]
 
 
@@ -215,7 +238,7 @@ def main():
             'evidence_file': '/verif/evidence/%s.json' % pid,
             'replay_cmd_template': '%s sa/check.py %s --replay {path}' % (PY, pid),
             'engine': 'sa',
-            'level_claimed': {'category': c['cat'], 'text': c['text'], 'design_ref': c['sec']},
+            'level_claimed': {'category': c['cat'], 'text': c['text'] + ADDED.get(pid, ''), 'design_ref': c['sec']},
             'level_note': c['note'],
             'technique': c['technique'] + '; functions are first proven equivalent to the reference spelling by a behaviour-preserving normal form of the syntax tree (sa/normal.py, sa/equiv.py), otherwise read as written',
         })
